@@ -1106,7 +1106,74 @@ def _expected_incomplete(pattern: str, subs: dict, missing) -> str | None:
     return None
 
 
+def symlink_oracle(ctx):
+    """Trees with symbolic links (to a file, to a directory, dangling), which the model leaves out: what a scan
+    records must still be what the standard glob returns and the regex accepts (non-directories compared, as in
+    the main oracle), and an incremental update with the watcher's change lists must equal a fresh scan."""
+    r = ctx.rng("symlinks")
+    patterns = ["*", "*.txt", "d/*", "d/*.txt", "**", "d/**", "**/*.txt", "${*n}.txt", "d/${*n}.txt", "l*", "*/x.txt"]
+    for i in range(ctx.budget(25, 300)):
+        d = tempfile.mkdtemp(prefix="c17s-")
+        cwd = os.getcwd()
+        try:
+            os.chdir(d)
+            os.makedirs("d/sub")
+            for f in ("a.txt", "d/x.txt", "d/sub/y.txt", "e/x.txt"):
+                os.makedirs(os.path.dirname(f) or ".", exist_ok=True)
+                open(f, "w").close()
+            links = {}
+            for name, target in (("la.txt", "a.txt"), ("ld", "d"), ("lgone.txt", "nowhere.txt"), ("d/lg.txt", "../missing"),
+                                 ("d/lx.txt", "x.txt")):
+                if r.random() < 0.7:
+                    os.symlink(target, name)
+                    links[name] = target
+            pattern = r.choice(patterns)
+            ng = NamedGlob(pattern)
+            ng.glob()
+            recorded = {str(p) for p in ng.files()}
+            globbed = set(pyglob.glob(ng._glob_pattern, recursive=True, include_hidden=True))
+            expected = {p for p in globbed if os.path.lexists(p) and not os.path.isdir(p) and ng._regex.fullmatch(p)}
+            rec_nd = {p for p in recorded if not p.endswith("/") and not os.path.isdir(p)}
+            ctx.stats.count("oracle:symlink-tree")
+            ctx.stats.case(("symlinks", pattern, tuple(sorted(links))), nontrivial=bool(links))
+            if expected != rec_nd:
+                kind = "dangling" if any(not os.path.exists(p) for p in expected ^ rec_nd) else "link"
+                ctx.finding(Finding(PID, f"nglob-symlink-scan-differs:{kind}",
+                                    f"scan of {pattern!r} records {sorted(rec_nd)}; the standard glob returns and the regex "
+                                    f"accepts {sorted(expected)} (links {links})",
+                                    {"pattern": pattern, "links": links, "recorded": sorted(rec_nd), "expected": sorted(expected)}))
+                continue
+            # a change set as the watcher reports it: a new dangling link, a new link to a file, a removed link
+            # (complete lists: a path below a linked directory has an alias, and both names change)
+            everything = lambda: set(pyglob.glob("**", recursive=True, include_hidden=True))  # noqa: E731
+            before = everything()
+            for name, target in (("new_gone.txt", "void"), ("d/new_gone.txt", "../void"), ("new_a.txt", "a.txt")):
+                if r.random() < 0.6:
+                    os.symlink(target, name)
+            for name in list(links):
+                if r.random() < 0.3:
+                    os.remove(name)
+            after = everything()
+            added, deleted = sorted(after - before), sorted(before - after)
+            evolved = ng.will_change(deleted, added)
+            incr = {str(p) for p in (evolved if evolved is not None else ng).files()}
+            fresh_ng = NamedGlob(pattern)
+            fresh_ng.glob()
+            fresh = {str(p) for p in fresh_ng.files()}
+            nd = lambda ps: {p for p in ps if not p.endswith("/") and not os.path.isdir(p)}  # noqa: E731
+            if nd(incr) != nd(fresh):
+                ctx.finding(Finding(PID, "nglob-symlink-incremental-differs",
+                                    f"{pattern!r}: the update with deleted={deleted} added={added} gives {sorted(nd(incr))}, a "
+                                    f"fresh scan gives {sorted(nd(fresh))}",
+                                    {"pattern": pattern, "links": links, "added": added, "deleted": deleted,
+                                     "incremental": sorted(nd(incr)), "fresh": sorted(nd(fresh))}))
+        finally:
+            os.chdir(cwd)
+            shutil.rmtree(d, ignore_errors=True)
+
+
 async def search(ctx):
+    symlink_oracle(ctx)
     # 1. witnesses of the negation theorems, replayed on the implementation
     rec1, rec2 = witness_phantom()
     if rec1 == ["n/"] or rec2 == ["a/f1/"]:
